@@ -434,6 +434,7 @@ class Class(object):
 
             if attr in self.__dict__:
                 self.__dict__[attr] = value
+                return
             else:
                 return object.__setattr__(self, attr, value)
         
@@ -441,11 +442,12 @@ class Class(object):
         
     def __delattr__(self, name):
         uname = name.upper()
-        for name in self.__dict__:
-            if uname == name.upper():
-                break
+        for attr in self.__dict__:
+            if uname == attr.upper():
+                del self.__dict__[attr]
+                return
 
-        del self.__dict__[name]
+        raise AttributeError(name)
     
     def __str__(self):
         values = list()
